@@ -22,7 +22,9 @@ struct c02case {
 	int nreq;
 	bool fixed_cuts,guard;       // fixed_cuts: use `cuts` instead of random ones; guard: the bytes before the last cut are an
 	std::vector<int> cuts;       //   incomplete request, so nothing may be served before the last segment is sent
-	c02case() : label("bad"),end('h'),nreq(1),fixed_cuts(false),guard(false) {}
+	int batch,bsize;             // batch: 0 single connection; 1/2/3 busy-loop batch (endings before the poll / between poll and
+	                             //   read handler / racing from a second thread) of bsize connections
+	c02case() : label("bad"),end('h'),nreq(1),fixed_cuts(false),guard(false),batch(0),bsize(0) {}
 };
 
 static void add(std::vector<c02case> &v,char const *cls,char const *label,std::string const &bytes,char end='h',int nreq=1)
@@ -365,11 +367,199 @@ static std::string sev_json(sev const &e)
 	return "";
 }
 
+
+// what the peer saw at the end of one connection
+struct outcome { std::string kind,head; reply rp; int nrep,pstatus,gotvalues; outcome() : nrep(0),pstatus(0),gotvalues(0) {} };
+static outcome collect(int proto,int cfd,char end,int want,int &opens)
+{
+	outcome o; bool endreq=false;
+	if(end=='r' || end=='c') {
+		if(end=='r') { linger lg; lg.l_onoff=1; lg.l_linger=0; setsockopt(cfd,SOL_SOCKET,SO_LINGER,&lg,sizeof(lg)); }
+		close(cfd); o.kind="reset-by-peer";
+		return o;
+	}
+	if(end=='h') shutdown(cfd,SHUT_WR);
+	rawreply rr=read_reply(cfd,opens>=8?1.0:(end=='w'?10.0:6.0),[&](std::string const &d)->bool {
+		if(end!='w') return false;                 // wait for the close
+		if(proto==HTTP) { size_t at=0; for(int i=0;i<want;i++) { reply t; if(!parse_http(d,at,false,t)) return false; } return true; }
+		if(proto==FCGI) { size_t at=0; for(int i=0;i<want;i++) { reply t; if(!parse_fcgi(d,at,t)) return false; } return true; }
+		return false;
+	});
+	o.head=rr.data.substr(0,96);
+	reply &rp=o.rp; int &nrep=o.nrep;
+	if(proto==HTTP) { size_t at=0; while(at<rr.data.size()) { reply t; if(!parse_http(rr.data,at,rr.end!='t',t)) { if(!t.framed_ok) rp.framed_ok=false; break; } rp=t; nrep++; } if(nrep==0 && !rr.data.empty()) rp.framed_ok=false; }
+	else if(proto==SCGI) { if(!rr.data.empty()) { if(parse_cgi(rr.data,true,rp)) nrep=1; else rp.framed_ok=false; } }
+	else {
+		size_t at=0;
+		// END_REQUEST bodies carry the protocol status
+		std::string const &d=rr.data; size_t p=0;
+		while(d.size()>=p+8) { unsigned char const *h=(unsigned char const *)d.data()+p; size_t cl=(h[4]<<8)|h[5],pl=h[6]; if(d.size()<p+8+cl+pl) break;
+			if(h[1]==3) { endreq=true; if(cl==8) o.pstatus=(unsigned char)d[p+8+4]; } p+=8+cl+pl; }
+		if(p!=d.size()) rp.framed_ok=false;
+		while(at<rr.data.size()) { reply t; if(!parse_fcgi(rr.data,at,t,&o.gotvalues)) { if(!t.framed_ok) rp.framed_ok=false; break; } bool fo=rp.framed_ok && t.framed_ok; if(t.complete) { rp=t; nrep++; } rp.framed_ok=fo; }
+	}
+	if(rr.end=='t') opens++;
+	if(rr.end=='t' && end!='w') o.kind="open";
+	else if(rr.end=='t' && nrep<want) o.kind="open";
+	else if(nrep>0) o.kind="status";
+	else if(endreq) o.kind="end";
+	else if(rr.end=='r') o.kind="reset";
+	else o.kind="closed";
+	close(cfd);
+	return o;
+}
+static void emit_reply(outcome const &o)
+{
+	emit(vt::J().s("e","Reply").s("kind",o.kind).i("status",o.rp.status).i("nrep",o.nrep).i("pstatus",o.pstatus).b("frame",o.rp.framed_ok).i("values",o.gotvalues).bytes("head",o.head).str());
+}
+// the well-formed probe on a fresh connection that follows every case
+static void probe(server &S,int proto,long idx)
+{
+	bool broken=false;
+	absreq pr=R(20000+idx,"GET","/sync","/probe",("n="+dec(idx)).c_str()); H(pr,"X-Probe",dec(idx));
+	std::string w = proto==HTTP ? http_encode(pr,http_opt()) : proto==SCGI ? scgi_encode(pr,0) : fcgi_encode(pr,fcgi_opt());
+	int pc=-1,ps=-1; S.connect(proto,pc,ps);
+	send_cut(pc,ps,w,std::vector<int>(),50,broken); close(ps);
+	rawreply rr=read_reply(pc,10.0,[&](std::string const &d)->bool { size_t at=0; reply t; return proto==HTTP?parse_http(d,at,false,t):proto==FCGI?parse_fcgi(d,at,t):false; });
+	reply t; size_t at=0; bool got = proto==HTTP?parse_http(rr.data,at,rr.end=='e',t):proto==SCGI?parse_cgi(rr.data,rr.end=='e',t):(parse_fcgi(rr.data,at,t)&&t.complete);
+	close(pc);
+	obs o; if(got) parse_obs(t.body,o);
+	std::string pj=jreq(pr,proto,1,0,"probe");
+	pj.replace(pj.find("\"Req\""),5,"\"Probe\"");
+	pj.erase(pj.size()-1); pj+=",\"o\":"+jobs(got?t.status:0,o)+"}";
+	emit(pj);
+	S.barrier(3);
+	std::vector<sev> late=ev_take();   // the probe accounts for one handler call (and one prepare/complete pair)
+	{ int h=0,e=0,c=0; for(size_t i=0;i<late.size();i++) { if(late[i].kind=='H') h++; if(late[i].kind=='E'||late[i].kind=='S') e++; if(late[i].kind=='C') c++; }
+	  if(h>1 || e>0 || c>1) emit(vt::J().s("e","Late").i("handler",h-1).i("onerror",e).i("complete",c-1).str()); }
+}
+
+// ---------------------------------------------------------------- busy-loop batches
+// Several connections become ready while the loop thread is busy, and are reset / half-closed / closed by the peer
+//   batch 1: while the loop is still busy (the poll that follows already sees the end of the connection)
+//   batch 2: between the poll that reported them readable and the run of their read handlers
+//   batch 3: from a second client thread racing with the loop (0-2 ms delays)
+// The loop is held by functors posted to the service (no hook): A blocks until the client has sent everything and has
+// posted B; run_one() then polls (A was the only queued handler when the iteration began), queues the read handlers
+// BEHIND B, and B blocks until the client has ended the connections.
+struct gate {
+	std::mutex m; std::condition_variable cv; bool started,go;
+	gate() : started(false),go(false) {}
+	void hold(int ms) { std::unique_lock<std::mutex> l(m); started=true; cv.notify_all(); cv.wait_for(l,std::chrono::milliseconds(ms),[this]{ return go; }); }
+	bool wait_started(int ms) { std::unique_lock<std::mutex> l(m); return cv.wait_for(l,std::chrono::milliseconds(ms),[this]{ return started; }); }
+	void release() { std::lock_guard<std::mutex> l(m); go=true; cv.notify_all(); }
+};
+struct member { std::string bytes,what; char end; int cfd,sdup; bool complete; outcome oc; };
+
+static void run_batch(server &S,int proto,long idx,c02case const &cs,bool hooks,uint64_t seed,int &opens)
+{
+	vt::rng r(seed*7919+idx*13+proto);
+	// ---- what each connection sends and how it ends
+	std::vector<member> ms(cs.bsize);
+	for(int i=0;i<cs.bsize;i++) {
+		member &m=ms[i];
+		int kind = i==0 ? 0 : r(7);
+		absreq q = kind==2||kind==5 ? R(9200+i,"POST",i%2?"/async":"/sync","/b",0) : kind==6 ? R(9200+i,"POST","/filt","/b",0) : R(9200+i,"GET",i%2?"/async":"/sync","/b","x=1");
+		if(q.method=="POST") B(q,"text/plain","0123456789abcdef");
+		H(q,"X-B",dec(i+1));
+		std::string w = proto==HTTP ? http_encode(q,http_opt()) : proto==SCGI ? scgi_encode(q,0) : fcgi_encode(q,fcgi_opt());
+		size_t hdr_end = q.body.empty()? w.size() : (proto==FCGI ? w.size()-8-8-q.body.size() : w.size()-q.body.size());
+		m.complete=true; m.what = q.method=="POST" ? "complete POST" : "complete GET";
+		if(kind==3) { size_t at = r(2) ? 1+r(w.size()-1) : (proto==HTTP ? w.find("\r\n")+2 : std::min<size_t>(w.size()-1,16)); w=w.substr(0,at); m.complete=false; m.what="request cut at "+dec(at); }
+		if(kind==4) { w=w.substr(0,w.size()-1); m.complete=false; m.what="request without its last byte"; }
+		if(kind==5 || kind==6) { size_t at=std::min(w.size()-1,hdr_end+(proto==FCGI?8:0)+4); w=w.substr(0,at); m.complete=false; m.what=std::string(kind==6?"filter app: ":"")+"request and part of the body"; }
+		m.bytes=w;
+		m.end = i==0 ? 'r' : "rrhc"[r(4)];
+		m.cfd=m.sdup=-1;
+	}
+	// the batch as a whole is announced first: if the service dies the Died line lands here
+	emit("{\"e\":\"Reset\"}");
+	emit_flush(vt::J().s("e","Conn").i("idx",idx).s("proto",proto_name[proto]).s("cls",cs.cls).s("label","any").i("nreq",cs.bsize)
+		.s("end","b").a("cuts",std::vector<int>()).b("hooks",hooks).i("len",0).b("hasbytes",false).i("batch",cs.batch).i("members",cs.bsize).str());
+	// ---- connections accepted and armed, loop idle
+	for(size_t i=0;i<ms.size();i++) if(!S.connect(proto,ms[i].cfd,ms[i].sdup)) return;
+	S.barrier(2);
+	gate A,B; gate *pa=&A,*pb=&B;
+	S.srv->post([pa]{ pa->hold(3000); });
+	A.wait_started(5000);
+	for(size_t i=0;i<ms.size();i++) { bool br; send_cut(ms[i].cfd,-1,ms[i].bytes,std::vector<int>(),0,br); }
+	for(size_t i=0;i<ms.size();i++) for(int k=0;k<200 && unread(ms[i].sdup)<(int)ms[i].bytes.size();k++) usleep(100);   // the bytes are in the served sockets
+	struct ender { static void end(member &m) {
+		if(m.end=='h') { shutdown(m.cfd,SHUT_WR); return; }
+		if(m.end=='r') { linger lg; lg.l_onoff=1; lg.l_linger=0; setsockopt(m.cfd,SOL_SOCKET,SO_LINGER,&lg,sizeof(lg)); }
+		close(m.cfd); m.cfd=-1;
+	} };
+	if(cs.batch==1) {
+		for(size_t i=0;i<ms.size();i++) ender::end(ms[i]);
+		usleep(1000);
+		A.release();
+	}
+	else if(cs.batch==2) {
+		S.srv->post([pb]{ pb->hold(3000); });
+		A.release();                       // A returns, poll reports the connections readable, their handlers queue up behind B
+		B.wait_started(5000);
+		usleep(500);
+		for(size_t i=0;i<ms.size();i++) ender::end(ms[i]);
+		usleep(1000);                      // RST / FIN have reached the served sockets (loopback, unix: synchronous)
+		B.release();
+	}
+	else {
+		std::vector<int> delay(ms.size()); for(size_t i=0;i<ms.size();i++) delay[i]=r(2000);
+		std::vector<member> *pm=&ms; std::vector<int> *pd=&delay;
+		std::thread t([pm,pd]{ for(size_t i=0;i<pm->size();i++) { usleep((*pd)[i]); ender::end((*pm)[i]); } });
+		usleep(r(1500));
+		A.release();
+		t.join();
+	}
+	for(size_t i=0;i<ms.size();i++) { close(ms[i].sdup); ms[i].sdup=-1; }
+	// ---- what the peers see
+	for(size_t i=0;i<ms.size();i++) {
+		member &m=ms[i];
+		if(m.cfd<0) { m.oc.kind="reset-by-peer"; continue; }
+		m.oc=collect(proto,m.cfd,'x',1,opens);            // already half-closed: wait for the close
+	}
+	S.barrier(6);
+	std::vector<sev> evs=ev_take();
+	// ---- attribute the server-side events: application events by the X-B marker, completion events by connection
+	std::vector<long> conns;
+	std::vector<std::vector<sev> > per(ms.size());
+	for(size_t i=0;i<evs.size();i++) {
+		sev const &e=evs[i]; long mi=-1;
+		if(e.kind=='P' || e.kind=='C') {
+			size_t k=0; while(k<conns.size() && conns[k]!=e.tag) k++;
+			if(k==conns.size()) conns.push_back(e.tag);
+			mi=k;
+		}
+		else if(e.kind=='H' || e.kind=='S' || e.kind=='E') mi=e.tag-1;
+		else continue;
+		if(mi<0 || mi>=(long)ms.size()) mi=ms.size()-1;     // not attributable: judged (and most likely rejected) with the last one
+		per[mi].push_back(e);
+	}
+	for(size_t i=0;i<ms.size();i++) {
+		member &m=ms[i];
+		emit("{\"e\":\"Reset\"}");
+		vt::J j; j.s("e","Conn").i("idx",idx).s("proto",proto_name[proto]).s("cls",cs.cls).s("label","any").i("nreq",1)
+			.s("end",std::string(1,m.end)).a("cuts",std::vector<int>()).b("hooks",hooks).i("len",m.bytes.size()).i("member",i).s("what",m.what);
+		j.b("hasbytes",true).bytes("bytes",m.bytes);
+		emit(j.str());
+		for(size_t k=0;k<per[i].size();k++) { std::string s=sev_json(per[i][k]); if(!s.empty()) emit(s); }
+		emit_reply(m.oc);
+	}
+	probe(S,proto,idx);
+}
+
 static int c02_main(server &S,char const *pname,long from,long count,bool quick,uint64_t seed)
 {
 	int proto = !strcmp(pname,"http") ? HTTP : !strcmp(pname,"scgi") ? SCGI : FCGI;
 	std::vector<c02case> cases;
 	if(proto==HTTP) http_cases(cases,quick,seed); else if(proto==SCGI) scgi_cases(cases,quick,seed); else fcgi_cases(cases,quick,seed);
+	{   // busy-loop batches
+		static char const *bn[]={"","busy-loop-ended-before-poll","busy-loop-ended-between-poll-and-handler","busy-loop-racing-reset"};
+		int sizes[]={2,3,5,8,1,4,6,7}; int ns=quick?4:8, rep=quick?2:6;
+		for(int b=1;b<=3;b++) for(int k=0;k<ns;k++) for(int x=0;x<rep;x++) {
+			c02case c; c.cls=std::string(proto_name[proto])+"-"+bn[b]; c.label="any"; c.batch=b; c.bsize=sizes[k]; c.nreq=sizes[k]; cases.push_back(c);
+		}
+	}
 	if(count<0) { printf("%zu\n",cases.size()); return 0; }
 	booster::verif::open(getenv("VERIF_HOOK_OUT") ? getenv("VERIF_HOOK_OUT") : "/dev/null");     // hook events reach the listener only while tracing is on
 	S.start();
@@ -385,6 +575,7 @@ static int c02_main(server &S,char const *pname,long from,long count,bool quick,
 	int opens=0;      // connections the front-end left unanswered: after a few of them stop waiting long
 	for(long idx=from;idx<to;idx++) {
 		c02case const &cs=cases[idx];
+		if(cs.batch) { run_batch(S,proto,idx,cs,hooks,seed,opens); fflush(tr.f); continue; }
 		vt::rng r(seed*1000003+idx*3+proto);
 		std::set<int> cutset; int nc=r(4);
 		for(int i=0;i<nc && cs.bytes.size()>1;i++) cutset.insert(1+r(cs.bytes.size()-1));
@@ -424,63 +615,12 @@ static int c02_main(server &S,char const *pname,long from,long count,bool quick,
 		else send_cut(cfd,sdup,cs.bytes,cuts,15,broken);
 		if(!broken) wait_consumed(sdup,20);
 		close(sdup);
-		std::string kind,head; reply rp; int nrep=0; bool endreq=false; int pstatus=0,gotvalues=0;
-		if(cs.end=='r') {
-			linger lg; lg.l_onoff=1; lg.l_linger=0; setsockopt(cfd,SOL_SOCKET,SO_LINGER,&lg,sizeof(lg));
-			close(cfd); cfd=-1; kind="reset-by-peer";
-		}
-		else {
-			if(cs.end=='h') shutdown(cfd,SHUT_WR);
-			int want=cs.nreq;
-			rawreply rr=read_reply(cfd,opens>=8?1.0:(cs.end=='w'?10.0:6.0),[&](std::string const &d)->bool {
-				if(cs.end!='w') return false;                 // wait for the close
-				if(proto==HTTP) { size_t at=0; for(int i=0;i<want;i++) { reply t; if(!parse_http(d,at,false,t)) return false; } return true; }
-				if(proto==FCGI) { size_t at=0; for(int i=0;i<want;i++) { reply t; if(!parse_fcgi(d,at,t)) return false; } return true; }
-				return false;
-			});
-			head=rr.data.substr(0,96);
-			// interpret
-			if(proto==HTTP) { size_t at=0; while(at<rr.data.size()) { reply t; if(!parse_http(rr.data,at,rr.end!='t',t)) { if(!t.framed_ok) rp.framed_ok=false; break; } rp=t; nrep++; } if(nrep==0 && !rr.data.empty()) rp.framed_ok=false; }
-			else if(proto==SCGI) { if(!rr.data.empty()) { if(parse_cgi(rr.data,true,rp)) nrep=1; else rp.framed_ok=false; } }
-			else {
-				size_t at=0;
-				// END_REQUEST bodies carry the protocol status
-				std::string const &d=rr.data; size_t p=0;
-				while(d.size()>=p+8) { unsigned char const *h=(unsigned char const *)d.data()+p; size_t cl=(h[4]<<8)|h[5],pl=h[6]; if(d.size()<p+8+cl+pl) break;
-					if(h[1]==3) { endreq=true; if(cl==8) pstatus=(unsigned char)d[p+8+4]; } p+=8+cl+pl; }
-				if(p!=d.size()) rp.framed_ok=false;
-				while(at<rr.data.size()) { reply t; if(!parse_fcgi(rr.data,at,t,&gotvalues)) { if(!t.framed_ok) rp.framed_ok=false; break; } bool fo=rp.framed_ok && t.framed_ok; if(t.complete) { rp=t; nrep++; } rp.framed_ok=fo; }
-			}
-			if(rr.end=='t') opens++;
-			if(rr.end=='t' && cs.end!='w') kind="open";
-			else if(rr.end=='t' && nrep<want) kind="open";
-			else if(nrep>0) kind="status";
-			else if(endreq) kind="end";
-			else if(rr.end=='r') kind="reset";
-			else kind="closed";
-			close(cfd);
-		}
+		outcome oc=collect(proto,cfd,cs.end,cs.nreq,opens);
 		S.barrier(6);
 		std::vector<sev> evs=ev_take();
 		for(size_t i=0;i<evs.size();i++) { std::string s=sev_json(evs[i]); if(!s.empty()) emit(s); }
-		emit(vt::J().s("e","Reply").s("kind",kind).i("status",rp.status).i("nrep",nrep).i("pstatus",pstatus).b("frame",rp.framed_ok).i("values",gotvalues).bytes("head",head).str());
-		// ---- the probe on a fresh connection
-		absreq pr=R(20000+idx,"GET","/sync","/probe",("n="+dec(idx)).c_str()); H(pr,"X-Probe",dec(idx));
-		std::string w = proto==HTTP ? http_encode(pr,http_opt()) : proto==SCGI ? scgi_encode(pr,0) : fcgi_encode(pr,fcgi_opt());
-		int pc=-1,ps=-1; S.connect(proto,pc,ps);
-		send_cut(pc,ps,w,std::vector<int>(),50,broken); close(ps);
-		rawreply rr=read_reply(pc,10.0,[&](std::string const &d)->bool { size_t at=0; reply t; return proto==HTTP?parse_http(d,at,false,t):proto==FCGI?parse_fcgi(d,at,t):false; });
-		reply t; size_t at=0; bool got = proto==HTTP?parse_http(rr.data,at,rr.end=='e',t):proto==SCGI?parse_cgi(rr.data,rr.end=='e',t):(parse_fcgi(rr.data,at,t)&&t.complete);
-		close(pc);
-		obs o; if(got) parse_obs(t.body,o);
-		std::string pj=jreq(pr,proto,1,0,"probe");
-		pj.replace(pj.find("\"Req\""),5,"\"Probe\"");
-		pj.erase(pj.size()-1); pj+=",\"o\":"+jobs(got?t.status:0,o)+"}";
-		emit(pj);
-		S.barrier(3);
-		std::vector<sev> late=ev_take();   // the probe accounts for one handler call (and one prepare/complete pair)
-		{ int h=0,e=0,c=0; for(size_t i=0;i<late.size();i++) { if(late[i].kind=='H') h++; if(late[i].kind=='E'||late[i].kind=='S') e++; if(late[i].kind=='C') c++; }
-		  if(h>1 || e>0 || c>1) emit(vt::J().s("e","Late").i("handler",h-1).i("onerror",e).i("complete",c-1).str()); }
+		emit_reply(oc);
+		probe(S,proto,idx);
 		fflush(tr.f);
 	}
 	emit_flush("{\"e\":\"Reset\"}");
